@@ -175,6 +175,11 @@ def run(shard, ctx):
                 exp = 1.0 / a - 1.0 / b
                 ctx.check("arithmetic: subtracting values subtracts the durations", st == "ok" and
                           abs(1.0 / d - exp) <= 1e-12 * max(abs(exp), 1.0 / a), w, exp, repr(d))
+                if st == "ok":
+                    # ... and adding the subtracted value again leads back, whichever of the two notes was the longer one
+                    st, back = ctx.call(V.add, d, b)
+                    ctx.check("arithmetic: add inverts subtract", st == "ok" and abs(back - a) <= 1e-9 * a, w, a, repr(back),
+                              mechanism="add-after-subtract:" + ("longer-minus-shorter" if a < b else "shorter-minus-longer"))
             ctx.case(("arith", a, b), nontrivial=a != b)
         ctx.sample({"add(8,4)": V.add(8, 4), "subtract(add(8,4),4)": V.subtract(V.add(8, 4), 4)})
     elif kind == "meter":
